@@ -5,6 +5,7 @@ go 1.26
 require (
 	github.com/orda-io/orda/client v0.0.0-20220818033301-4a9396b77850
 	github.com/orda-io/orda/server v0.0.0-20220801082945-cf9794afb5e4
+	go.mongodb.org/mongo-driver v1.10.1
 	google.golang.org/protobuf v1.28.1
 )
 
@@ -41,7 +42,6 @@ require (
 	github.com/xdg-go/stringprep v1.0.3 // indirect
 	github.com/youmark/pkcs8 v0.0.0-20201027041543-1326539a0a0a // indirect
 	github.com/ztrue/tracerr v0.3.0 // indirect
-	go.mongodb.org/mongo-driver v1.10.1 // indirect
 	golang.org/x/crypto v0.0.0-20220826181053-bd7e27e6170d // indirect
 	golang.org/x/net v0.0.0-20220826154423-83b083e8dc8b // indirect
 	golang.org/x/sync v0.0.0-20220819030929-7fc1605a5dde // indirect
